@@ -25,7 +25,7 @@ INFO = dict(
          'pool max_watermark=1 via the public builder ReplaceRole() in the serial scenario, to force connection reuse'],
   assumptions=['A1-A5'],
 )
-EXPECT_COVERS = ['mux-timeout-during-blocked-write', 'serial-stale-reply-after-timeout', 'serial-next-call-served', 'mux-out-of-order', 'mux-timeout-then-late-reply']
+EXPECT_COVERS = ['calls-issued-while-opening', 'mux-timeout-during-blocked-write', 'serial-stale-reply-after-timeout', 'serial-next-call-served', 'mux-out-of-order', 'mux-timeout-then-late-reply']
 
 
 def jobs(tier):
@@ -33,7 +33,9 @@ def jobs(tier):
   return [dict(name='T-serial-reuse-n%d' % n, sc='serial', n=n, cost=2000, shards=16, shard_depth=4),
           dict(name='M-concurrent-n%d' % n, sc='mux', n=n, cost=2000, shards=8 if n == 2 else 32, shard_depth=3 if n == 2 else 5),
           dict(name='M-timeout-reuse', sc='muxreuse', cost=500, shards=4, shard_depth=2),
-          dict(name='M-blocked-write-reuse', sc='muxblocked', cost=500, shards=4, shard_depth=2)]
+          dict(name='M-blocked-write-reuse', sc='muxblocked', cost=500, shards=4, shard_depth=2),
+          dict(name='M-calls-during-open', sc='duringopen', stack='M', cost=300),
+          dict(name='T-calls-during-open', sc='duringopen', stack='T', cost=300)]
 
 
 def judge_values(ars, script, issued):
@@ -98,6 +100,26 @@ def make_body(job):
       if len(done) >= 2 and bool(done[0] > done[1]): cover('mux-out-of-order')
       tags = [tag for (t, p, m, a, tag) in script.requests]
       check('mux.tags-distinct-among-concurrent', len(set(tags[:n])) == len(tags[:n]))
+      check('no-greenlet-error', not vtime.ERRORS)
+      c.DispatcherClose()
+    elif sc == 'duringopen':
+      # several calls with different arguments are issued while the client is still opening its connection
+      from .c01 import peer_cls, client
+      k = job['stack']
+      L = fresh_real('open_latency', 0, 3, lo_strict=True)
+      script = netm.Script(plan=lambda i, p: ('reply', 0))
+      e.net.endpoint('a', 1, peer=lambda s: peer_cls(k)(s, script), connect_delay=L)
+      c = client(k, 'tcp://a:1', 10, open_timeout=0)
+      ars = []; issued = []
+      for i in range(3):
+        g = fresh_real('gap%d' % i, 0, 2)
+        if hdecide(g > 0): gevent.sleep(g)
+        arg = 'argument-%d' % i; issued.append(arg); ars.append((arg, c.hi_async(arg)))
+      if bool(L > 0): cover('calls-issued-while-opening')
+      gevent.sleep(20)
+      judge_values(ars, script, issued)
+      seen = sorted(a[0] for (t, p, m, a, tag) in script.requests)
+      check('duringopen.server-saw-every-argument', seen == sorted(issued))
       check('no-greenlet-error', not vtime.ERRORS)
       c.DispatcherClose()
     elif sc == 'muxblocked':
